@@ -28,6 +28,7 @@ import (
 
 	"github.com/blevesearch/bleve/v2"
 	"github.com/blevesearch/bleve/v2/index/scorch"
+	"github.com/blevesearch/bleve/v2/mapping"
 	"github.com/blevesearch/bleve/v2/search"
 	"github.com/blevesearch/bleve/v2/search/collector"
 
@@ -71,8 +72,20 @@ type result struct {
 	Inconclusive    []string       `json:"inconclusive"`
 }
 
-var configs = []string{"scorch-disk", "scorch-disk-merge", "scorch-disk-p3", "scorch-disk-unsafe", "scorch-mem",
+var configs = []string{"scorch-disk", "scorch-disk-merge", "scorch-disk-p3", "scorch-disk-unsafe", "scorch-mem", "scorch-disk-nap1",
 	"upsidedown-gtreap", "upsidedown-boltdb", "upsidedown-goleveldb", "upsidedown-moss"}
+
+// c11Mapping is the shared mapping with doc values switched off for the field notv, so that facets and sorts on it
+// go through scorch's on-the-fly doc value cache (shared between concurrent searches on a segment).
+func c11Mapping() *mapping.IndexMappingImpl {
+	m := corpus.Mapping()
+	if p := m.DefaultMapping.Properties["notv"]; p != nil {
+		for _, f := range p.Fields {
+			f.DocValues = false
+		}
+	}
+	return m
+}
 
 // hook points (none of them under scorch's root lock) at which the directed Close rounds park an actor
 var closePoints = []string{
@@ -152,7 +165,11 @@ func isClosedErr(err error) bool {
 func runRound(sp spec, round int, res *result, ops *counter) {
 	g := rng.New(sp.Seed).Derive(fmt.Sprintf("round-%d", round))
 	cfgName := configs[round%len(configs)]
-	cfg := corpus.ConfigByName(cfgName)
+	lookup := cfgName
+	if cfgName == "scorch-disk-nap1" {
+		lookup = "scorch-disk-merge"
+	}
+	cfg := corpus.ConfigByName(lookup)
 	if cfg.KVConfig == nil {
 		cfg.KVConfig = map[string]any{}
 	} else {
@@ -161,6 +178,10 @@ func runRound(sp spec, round int, res *result, ops *counter) {
 			kv[k] = v
 		}
 		cfg.KVConfig = kv
+	}
+	if cfgName == "scorch-disk-nap1" {
+		// the persister pauses whenever a segment file exists and the merger has not caught up with it
+		cfg.KVConfig["scorchPersisterOptions"] = map[string]any{"PersisterNapUnderNumFiles": 1, "PersisterNapTimeMSec": 1}
 	}
 	if cfg.IsScorch() {
 		cfg.KVConfig["asyncErrorCallbackName"] = "c11"
@@ -203,7 +224,7 @@ func runRound(sp spec, round int, res *result, ops *counter) {
 		})
 	}
 	base := filepath.Join(sp.Dir, fmt.Sprintf("r%d", round))
-	idx, err := cfg.Open(base, corpus.Mapping())
+	idx, err := cfg.Open(base, c11Mapping())
 	if err != nil {
 		prob("setup-error", err.Error())
 		return
@@ -308,6 +329,13 @@ func runRound(sp spec, round int, res *result, ops *counter) {
 				}
 				if lg.Chance(1, 3) {
 					req.AddFacet("tags", bleve.NewFacetRequest("tag", 5))
+				}
+				// a field without persisted doc values: concurrent searches un-invert it on the fly
+				if lg.Chance(1, 3) {
+					req.AddFacet("words", bleve.NewFacetRequest("notv", 5))
+				}
+				if lg.Chance(1, 4) {
+					req.SortBy([]string{rng.Pick(lg, []string{"notv", "-notv", "tag", "-num"}), "_id"})
 				}
 				ctx := context.Background()
 				var cancel context.CancelFunc = func() {}
@@ -425,31 +453,64 @@ func runRound(sp spec, round int, res *result, ops *counter) {
 	}()
 	done := make(chan struct{})
 	go func() { wg.Wait(); close(done) }()
-	hang := func(what string) {
+	hang := func(what string, finished func() bool) {
 		// deadlock signature: the same goroutines sit in the same bleve frames in two dumps
 		a := bleveStacksWithHarness()
 		time.Sleep(2 * time.Second)
 		b := bleveStacksWithHarness()
 		if a == b && a != "" {
 			prob("deadlock/"+what, "two goroutine dumps 2 s apart show the same goroutines blocked in bleve calls:\n"+a)
-		} else {
-			res.Inconclusive = append(res.Inconclusive, what+" did not finish within the watchdog but the goroutines were still moving")
+			return
+		}
+		// the goroutines move: a slow machine, or a livelock (a loop that no longer makes progress). Give it five
+		// more minutes — a round handles a few hundred small documents and normally closes within milliseconds.
+		for i := 0; i < 300; i++ {
+			if finished() {
+				res.Inconclusive = append(res.Inconclusive, what+" finished only after the 90 s watchdog (machine load)")
+				return
+			}
+			time.Sleep(time.Second)
+		}
+		prob("no-progress/"+what, "not finished 5 minutes after the 90 s watchdog while its goroutines keep running (livelock):\n"+bleveStacksWithHarness())
+	}
+	var closeErr error
+	closeFinished := false
+	select {
+	case closeErr = <-closeDone:
+		closeFinished = true
+	case <-time.After(90 * time.Second):
+		hang("Close", func() bool {
+			select {
+			case closeErr = <-closeDone:
+				closeFinished = true
+				return true
+			default:
+				return false
+			}
+		})
+		if !closeFinished {
+			return
 		}
 	}
-	select {
-	case err := <-closeDone:
-		if err != nil {
-			addProb("close-error", err.Error())
-		}
-	case <-time.After(90 * time.Second):
-		hang("Close")
-		return
+	if closeErr != nil {
+		addProb("close-error", closeErr.Error())
 	}
 	select {
 	case <-done:
 	case <-time.After(90 * time.Second):
-		hang("calls in flight at Close")
-		return
+		fin := false
+		hang("calls in flight at Close", func() bool {
+			select {
+			case <-done:
+				fin = true
+				return true
+			default:
+				return false
+			}
+		})
+		if !fin {
+			return
+		}
 	}
 	d.Disarm()
 	// every call made after Close returns the closed-index error
